@@ -119,7 +119,7 @@ CLAIMED["C09"] = {
 
 CLAIMED["C04"] = {
     "category": "other",
-    "text": "Selection: all 18 direct typed getters are get_tag::<T>() with T::ID the variant of the kind's specified number; the polymorphic get_tag is tags().find(numeric type equality).map(cast::<T>) (first match by Iterator::find over C03's walk) and each of the 20 instantiated predicates compares with its kind; the EFI-map withholding and the framebuffer error propagation wrappers term by term. Decoding: compiler layouts of all 22 tag structs, MemoryArea, FramebufferColor, VBEControlInfo/VBEModeInfo/VBEField against hand-written specification tables; the return term of every public accessor resolved to (offset, width) and compared with an accessor table; compound accessors (RSDP checksum range and fold, RSDP strings, module size, area end, little-endian Reader, RGB read order, palette) matched structurally; plain accessors have no panic edge and no narrowing cast; the named VBE flag constants and memory-model numbers against VBE 3.0 (G9). Public methods added to the reference API are decided where self-evident (named after the field they return, the variable part itself, get_tag::<T>() unchanged) and otherwise listed as not decided.",
+    "text": "Selection: all 18 direct typed getters are get_tag::<T>() with T::ID the variant of the kind's specified number; the polymorphic get_tag is tags().find(numeric type equality).map(cast::<T>) (first match by Iterator::find over C03's walk) and each of the 20 instantiated predicates compares with its kind; the EFI-map withholding and the framebuffer error propagation wrappers term by term. Decoding: compiler layouts of all 22 tag structs, MemoryArea, FramebufferColor, VBEControlInfo/VBEModeInfo/VBEField against hand-written specification tables; the return term of every public accessor resolved to (offset, width) and compared with an accessor table; compound accessors (RSDP checksum range and fold, RSDP strings, module size, area end, little-endian Reader, RGB read order, palette) matched structurally; plain accessors have no panic edge and no narrowing cast; cast() rejects exactly (G8: BASE_SIZE constant, T::dst_len, size mismatch - a conformant tag of the requested type is returned); the named VBE flag constants and memory-model numbers against VBE 3.0 (G9). Public methods added to the reference API are decided where self-evident (named after the field they return, the variable part itself, get_tag::<T>() unchanged) and otherwise listed as not decided.",
     "design_ref": "DESIGN.md §4 C04, §17 batch 12, §18",
     "note": TB + "; imports C03, C15, C20 and C02's load premises (well-formed inputs load); the two repr(Rust) tuples inside VBEModeInfo (resolution, character_size) are toolchain-dependent and not claimed; iterator decoders are C18/C19, strings C17",
     "technique": "layout tables + accessor read-sets (return term -> offset/width) + getter/ID tables + structural term matching of compound decoders",
